@@ -18,11 +18,11 @@ for b in ["build.rs", "may_queue/build.rs"]:
 
 # 2. crate roots
 edit("src/lib.rs", lambda s: s.replace('// #![deny(missing_docs)]\n',
-    '// #![deny(missing_docs)]\n#![cfg_attr(kani, recursion_limit = "1024")]\n#![cfg_attr(kani, feature(allocator_api))]\n', 1)
-    .replace('mod cancel;\n', '#[cfg(kani)]\n#[path = "/verif/harness/shim/mod.rs"]\nmod verif_shim;\n\nmod cancel;\n', 1))
+    '// #![deny(missing_docs)]\n#![cfg_attr(kani, recursion_limit = "1024")]\n#![cfg_attr(kani, feature(allocator_api))]\n#![cfg_attr(kani, feature(core_io_internals, core_io))]\n', 1)
+    .replace('mod cancel;\n', '#[cfg(kani)]\n#[path = "/verif/harness/shim/mod.rs"]\npub(crate) mod verif_shim;\n\nmod cancel;\n', 1))
 edit("may_queue/src/lib.rs", lambda s: s.replace('#![cfg_attr(all(nightly, test), feature(test))]\n',
-    '#![cfg_attr(all(nightly, test), feature(test))]\n#![cfg_attr(kani, recursion_limit = "1024")]\n#![cfg_attr(kani, feature(allocator_api))]\n', 1)
-    .replace('mod atomic;\n', '#[cfg(kani)]\n#[path = "/verif/harness/shim/mod_queue.rs"]\nmod verif_shim;\n\nmod atomic;\n', 1))
+    '#![cfg_attr(all(nightly, test), feature(test))]\n#![cfg_attr(kani, recursion_limit = "1024")]\n#![cfg_attr(kani, feature(allocator_api))]\n#![cfg_attr(kani, feature(core_io_internals, core_io))]\n', 1)
+    .replace('mod atomic;\n', '#[cfg(kani)]\n#[path = "/verif/harness/shim/mod_queue.rs"]\npub(crate) mod verif_shim;\n\nmod atomic;\n', 1))
 
 # 3. child-module mounts (harness files live in /verif)
 MAY = ["park", "join", "cancel", "scheduler", "coroutine_impl", "timeout_list", "sleep", "yield_now",
@@ -34,10 +34,10 @@ MAY = ["park", "join", "cancel", "scheduler", "coroutine_impl", "timeout_list", 
 for m in MAY:
     name = m.replace("/", "_")
     edit(f"src/{m}.rs", lambda s, name=name: s + ("" if s.endswith("\n") else "\n") +
-         f'\n#[cfg(kani)]\n#[path = "/verif/harness/may/{name}.rs"]\nmod verif_kani;\n')
+         f'\n#[cfg(kani)]\n#[path = "/verif/harness/may/{name}.rs"]\npub(crate) mod verif_kani;\n')
 for m in ["mpsc", "spsc", "spmc", "mpsc_list_v1", "mpsc_list"]:
     edit(f"may_queue/src/{m}.rs", lambda s, m=m: s + ("" if s.endswith("\n") else "\n") +
-         f'\n#[cfg(kani)]\n#[path = "/verif/harness/may_queue/{m}.rs"]\nmod verif_kani;\n')
+         f'\n#[cfg(kani)]\n#[path = "/verif/harness/may_queue/{m}.rs"]\npub(crate) mod verif_kani;\n')
 
 # 4. retargeted imports: `#[cfg(not(kani))]` above the untouched line, shim import below it
 def retarget(rel, line, shim):
